@@ -1,2 +1,3 @@
 import SynKitModel.Basic
+import SynKitModel.Graph
 import SynKitModel.Store
